@@ -201,6 +201,17 @@ def verify_function(ctx, c, section, only_prop):
                                        "counterexample": {"helper": hname, "decorator": deco}})
     n_real = 0
     agg = {}
+    for r in getattr(ls, "presolved", []) or []:
+        if r["st"] == "infeasible":
+            agg["infeasible"] = agg.get("infeasible", 0) + 1
+            continue
+        n_real += 1
+        rec = {"name": r["name"], "status": {"discharged": C.DISCHARGED, "failed": C.FAILED, "undecided": C.UNDECIDED}[r["st"]], "backend": r["backend"],
+               "time_s": round(r["dt"], 4), "goal": r["goal"], "info": (r["info"] or "")[:160], "props": c.props, "witness_families": r["families"]}
+        if r["st"] != "discharged":
+            rec["detail"] = r["detail"]
+            rec["counterexample"] = {"path_conditions": r["hyps"]}
+        section["obligations"].append(rec)
     for ob in ls.obs:
         st, backend, detail, dt = solve(ctx, ob)
         if st == "infeasible":
